@@ -158,56 +158,55 @@ class Crate:
         return self.name + ("[test]" if self.test else "")
 
 
-def load_dir(factdir):
-    """Load every fact file in a directory, de-duplicating identical content (cargo compiles a crate several times)."""
-    crates = []
-    seen = set()
-    for f in sorted(glob.glob(os.path.join(factdir, "*.json"))):
-        data = open(f, "rb").read()
-        h = hashlib.sha256(data).hexdigest()
-        if h in seen:
-            continue
-        seen.add(h)
-        pk = f + ".pickle"
-        if os.path.exists(pk) and os.path.getmtime(pk) >= os.path.getmtime(f):
-            try:
-                crates.append(pickle.load(open(pk, "rb")))
-                continue
-            except Exception:
-                pass
-        c = Crate(json.loads(data), f)
+def _load_file(f):
+    pk = f + ".pickle"
+    if os.path.exists(pk) and os.path.getmtime(pk) >= os.path.getmtime(f):
         try:
-            pickle.dump(c, open(pk, "wb"), protocol=pickle.HIGHEST_PROTOCOL)
+            return pickle.load(open(pk, "rb"))
         except Exception:
             pass
-        crates.append(c)
-    return crates
+    c = Crate(json.loads(open(f, "rb").read()), f)
+    try:
+        pickle.dump(c, open(pk + ".tmp%d" % os.getpid(), "wb"), protocol=pickle.HIGHEST_PROTOCOL)
+        os.replace(pk + ".tmp%d" % os.getpid(), pk)
+    except Exception:
+        pass
+    return c
+
+
+_FNAME = re.compile(r"^(.*?)(-test)?-(\d+)\.json$")
 
 
 class Program:
-    """All crates of one extraction (one cfg set)."""
+    """All crates of one extraction (one cfg set); crates are loaded lazily.
+    cargo compiles a crate several times under different feature unifications: the largest file wins."""
 
-    def __init__(self, factdir, only=None):
+    def __init__(self, factdir):
         self.factdir = factdir
-        self.crates = []
-        names = {}
-        for c in load_dir(factdir):
-            if only and not only(c):
+        self.files = {}
+        for f in sorted(glob.glob(os.path.join(factdir, "*.json"))):
+            m = _FNAME.match(os.path.basename(f))
+            if not m:
                 continue
-            k = (c.name, c.test)
-            if k in names:
-                # same crate compiled under a different feature unification: keep the larger, remember both
-                if len(c.bodies) <= len(names[k].bodies):
-                    continue
-                self.crates.remove(names[k])
-            names[k] = c
-            self.crates.append(c)
+            k = (m.group(1), bool(m.group(2)))
+            if k not in self.files or os.path.getsize(f) > os.path.getsize(self.files[k]):
+                self.files[k] = f
+        self._loaded = {}
+
+    @property
+    def crates(self):
+        return list(self._loaded.values())
+
+    def names(self):
+        return sorted(self.files)
 
     def crate(self, name, test=False):
-        for c in self.crates:
-            if c.name == name and c.test == test:
-                return c
-        raise KeyError("crate %s (test=%s) not in facts %s" % (name, test, self.factdir))
+        k = (name, test)
+        if k not in self._loaded:
+            if k not in self.files:
+                raise KeyError("crate %s (test=%s) not in facts %s" % (name, test, self.factdir))
+            self._loaded[k] = _load_file(self.files[k])
+        return self._loaded[k]
 
     def has_crate(self, name, test=False):
-        return any(c.name == name and c.test == test for c in self.crates)
+        return (name, test) in self.files
